@@ -16,6 +16,13 @@
   * `C12_loop_propagates_section_error`      the section loop of `Decoder.process` hands that error on unchanged,
         whatever was decoded before; `C12_short_section_length_refused_in_loop`: hence a short length is refused with a
         library error at every section of every message, from any loop state;
+  * `C12_msg_short_section_length_refused`   for ALL messages: take any bit string that decodes, any of its sections that
+        carries a length, and replace everything from the start of that section by any bits whose first 24 declare less
+        than the fixed part: the decoding fails with a library error (the sections before are decoded as before:
+        `decLoop_visits`);
+  * `C12_short_section_length_refused_no_data`  both statements for EVERY data coder when the section does not hold the
+        template data (bundled: all sections but section 4 of a full decode, `C12_bundled_data_only_in_section4`) — the data
+        coder is only a hypothesis where it is actually run (F15 / F23 are about what it raises on garbled input);
   * `C12_bundled_layouts_lenOK`              the bundled layouts (regenerated from /repo on every run) meet the
         condition for every section with a length, under every combination of `info_only` /
         `ignore_value_expectation`; `C12_bundled_fixed_parts`: their fixed parts are 18 (editions 2, 3) / 22 (edition 4 and default), 4, 7, 4 octets.
@@ -27,118 +34,16 @@ import BufrModel.Lemmas.DecoderState
 import BufrModel.Props.C12Msg
 namespace Bufr
 
-theorem R.bind_eq_of_ok {α β : Type} {f : R α} {g : α → R β} {x r : Bits} {a : α} (h : f x = .ok (a, r)) :
-    R.bind f g x = g a r := by
-  simp only [R.bind, h]
-
-theorem R.bind_eq_of_error {α β : Type} {f : R α} {g : α → R β} {x : Bits} {e : Err} (h : f x = .error e) :
-    R.bind f g x = .error e := by
-  simp only [R.bind, h]
-
-theorem lenOK_cons {s : SectionLayout} (h : s.lenOK = true) :
-    ∃ p ps, s.params = p :: ps ∧ p.name = "section_length" ∧ p.nbits = 24 ∧ p.ty = .uint ∧ p.expected = none ∧
-      ps.all Param.readOK = true := by
-  unfold SectionLayout.lenOK at h
-  cases hp : s.params with
-  | nil => rw [hp] at h; cases h
-  | cons p ps =>
-    rw [hp] at h
-    simp only [Bool.and_eq_true, beq_iff_eq, Option.isNone_iff_eq_none] at h
-    exact ⟨p, ps, rfl, h.1.1.1.1, h.1.1.1.2, h.1.1.2, h.1.2, h.2⟩
-
-theorem lenOK_hasParam {s : SectionLayout} (h : s.lenOK = true) : s.hasParam "section_length" = true := by
-  obtain ⟨p, ps, hps, hname, _⟩ := lenOK_cons h
-  simp [SectionLayout.hasParam, hps, hname]
-
-theorem errLib_finishSection {α : Type} (s : SectionLayout) (st : DecSt α)
-    (hl : ∃ v, st.acc.lookup "section_length" = some (PVal.int v)) : R.ErrLib (finishSection s st) := by
-  obtain ⟨v, hv⟩ := hl
-  have hs := secLen_of_lookup hv
-  unfold finishSection
-  split
-  · refine R.ErrLib.bind (R.ErrLib.lift _ (by intro e he; rw [hs] at he; cases he)) fun _ d _ _ => ?_
-    split
-    · exact R.ErrLib.map _ (errLib_readBits _)
-    · split
-      · exact R.ErrLib.fail _ rfl
-      · exact R.ErrLib.pure _
-  · exact R.ErrLib.pure _
-
-/-- the first parameter of a section with a length: what `decValue` reads is the 24-bit unsigned value -/
-theorem decValue_len_first {α : Type} (dc : DataCoder α) (st : DecSt α) (p : Param) (hnb : p.nbits = 24) (hty : p.ty = .uint)
-    (x : Bits) :
-    R.counted (decValue dc st p) x =
-      (match readUInt 24 x with
-       | .error e => .error e
-       | .ok (d, r) => .ok (((PVal.int (Int.ofNat d), none), x.length - r.length), r)) := by
-  simp only [R.counted, decValue, hty, hnb, if_neg (by decide : ¬ (24 : Nat) = 0), readTyped, R.map, R.bind, R.pure]
-  cases hr : readUInt 24 x with
-  | error e => rfl
-  | ok a => obtain ⟨d, r⟩ := a; rfl
-
-/-- what the decoding of a section with a length comes to: either it fails before the tail of `process_section`, with
-    a library error; or all parameters were read, `used` is at least the fixed part, the declared length `d` is
-    what the first 24 bits say, and the result is the tail's (`finishSection`) -/
-theorem decSection_cases {α : Type} (dc : DataCoder α) (hdc : ∀ reg, R.ErrLib (dc.dec reg)) (s : SectionLayout)
-    (hs : s.lenOK = true) (reg : Registry) (start : Nat) (x : Bits) :
-    (∃ e, decSection dc s reg start x = .error e ∧ e.isLib = true) ∨
-    (∃ (d : Nat) (r1 : Bits) (st' : DecSt α) (r3 : Bits), readUInt 24 x = .ok (d, r1) ∧
-        fixedBits s.params ≤ st'.used ∧ st'.acc.lookup "section_length" = some (PVal.int (Int.ofNat d)) ∧
-        decSection dc s reg start x = finishSection s st' r3) := by
-  obtain ⟨p, ps, hps, hname, hnb, hty, hexp, hall⟩ := lenOK_cons hs
-  have hfirst := decValue_len_first dc { reg := reg, acc := [], used := 0, data := none } p hnb hty x
-  unfold decSection
-  rw [hps]
-  cases hr : readUInt 24 x with
-  | error e =>
-    left
-    rw [hr] at hfirst
-    refine ⟨e, ?_, errLib_readUInt 24 (by decide) x e hr⟩
-    rw [R.bind_eq_of_error]
-    simp only [decParams]
-    exact R.bind_eq_of_error hfirst
-  | ok a =>
-    obtain ⟨d, r1⟩ := a
-    rw [hr] at hfirst
-    simp only at hfirst
-    have hce : checkExpected p (PVal.int (Int.ofNat d)) = .ok () := by simp only [checkExpected, hexp]
-    have hlen := readUInt_len hr
-    -- the state after the first parameter
-    have hstep : ∀ (k : DecSt α → R (DecSection × Registry × Option α)),
-        R.bind (decParams dc start (p :: ps) 0 { reg := reg, acc := [], used := 0, data := none }) k x =
-        R.bind (decParams dc start ps (0 + p.nbits)
-          { reg := if p.asProperty then (p.name, { val := PVal.int (Int.ofNat d), nbits := p.nbits, pos := start + 0 }) :: reg else reg,
-            acc := [] ++ [(p.name, PVal.int (Int.ofNat d))], used := 0 + (x.length - r1.length), data := none }) k r1 := by
-      intro k
-      simp only [decParams, R.bind, hfirst, hce, R.lift, R.pure]
-    rw [hstep]
-    cases hq : decParams dc start ps (0 + p.nbits)
-          { reg := if p.asProperty then (p.name, { val := PVal.int (Int.ofNat d), nbits := p.nbits, pos := start + 0 }) :: reg else reg,
-            acc := [] ++ [(p.name, PVal.int (Int.ofNat d))], used := 0 + (x.length - r1.length), data := none } r1 with
-    | error e =>
-      left
-      refine ⟨e, R.bind_eq_of_error hq, ?_⟩
-      exact errLib_decParams dc hdc start ps _ _ hall ⟨Int.ofNat d, by simp [hname]⟩ r1 e hq
-    | ok b =>
-      obtain ⟨st', r3⟩ := b
-      right
-      obtain ⟨hu, m, hm⟩ := decParams_used dc start ps _ _ _ _ _ hall hq
-      simp only at hu hm
-      refine ⟨d, r1, st', r3, rfl, ?_, ?_, R.bind_eq_of_ok hq⟩
-      · simp only [fixedBits, List.map_cons, List.sum_cons, hnb] at hu ⊢
-        omega
-      · rw [hm]
-        exact lookup_append_some (by simp [hname])
-
 /-- **every error of the section decoder is a library error**, for every section that carries a length, whatever
-    the bits and whatever the declared length says (as long as the data coder raises library errors only): no
+    the bits and whatever the declared length says (when the section holds the template data: as long as the data coder
+    raises library errors only; for every other section and for metadata-only layouts unconditionally): no
     declared value can make the section layer hand a negative / zero width to the bit reader or miss its own length.
     This is F14's repair, for all sections at once. -/
-theorem C12_section_errors_are_library_errors {α : Type} (dc : DataCoder α) (hdc : ∀ reg, R.ErrLib (dc.dec reg))
-    (s : SectionLayout) (hs : s.lenOK = true) (reg : Registry) (start : Nat) :
+theorem C12_section_errors_are_library_errors {α : Type} (dc : DataCoder α) (s : SectionLayout)
+    (hdc : HasData s.params → ∀ reg, R.ErrLib (dc.dec reg)) (hs : s.lenOK = true) (reg : Registry) (start : Nat) :
     R.ErrLib (decSection dc s reg start) := by
   intro x e h
-  rcases decSection_cases dc hdc s hs reg start x with ⟨e', he', hl⟩ | ⟨d, r1, st', r3, _, _, hlook, heq⟩
+  rcases decSection_cases dc s hdc hs reg start x with ⟨e', he', hl⟩ | ⟨d, r1, st', r3, _, _, hlook, heq⟩
   · rw [he'] at h; cases h; exact hl
   · rw [heq] at h
     exact errLib_finishSection s st' ⟨_, hlook⟩ r3 e h
@@ -147,11 +52,11 @@ theorem C12_section_errors_are_library_errors {α : Type} (dc : DataCoder α) (h
     the 24 bits at the start of the section say `d` octets and the parameters of the section take more than that
     whatever follows (`fixedBits`), the section does not decode — at every section, for every `d`, every content, full
     or metadata-only layout (any layout with `lenOK`). -/
-theorem C12_short_section_length_refused {α : Type} (dc : DataCoder α) (hdc : ∀ reg, R.ErrLib (dc.dec reg))
-    (s : SectionLayout) (hs : s.lenOK = true) (reg : Registry) (start : Nat) (bits rest : Bits) (d : Nat)
+theorem C12_short_section_length_refused {α : Type} (dc : DataCoder α) (s : SectionLayout)
+    (hdc : HasData s.params → ∀ reg, R.ErrLib (dc.dec reg)) (hs : s.lenOK = true) (reg : Registry) (start : Nat) (bits rest : Bits) (d : Nat)
     (hd : readUInt 24 bits = .ok (d, rest)) (hshort : d * 8 < fixedBits s.params) :
     ∃ e, decSection dc s reg start bits = .error e ∧ e.isLib = true := by
-  rcases decSection_cases dc hdc s hs reg start bits with h | ⟨d', r1, st', r3, hd', hu, hlook, heq⟩
+  rcases decSection_cases dc s hdc hs reg start bits with h | ⟨d', r1, st', r3, hd', hu, hlook, heq⟩
   · exact h
   · rw [hd] at hd'
     cases hd'
@@ -176,14 +81,70 @@ theorem C12_loop_propagates_section_error {α : Type} (L : Layouts) (dc : DataCo
     sections so far), when the section that comes next carries a length, its first 24 bits say `d` octets and that is
     less than its fixed part, the whole decoding fails with a library error -/
 theorem C12_short_section_length_refused_in_loop {α : Type} (L : Layouts) (dc : DataCoder α)
-    (hdc : ∀ reg, R.ErrLib (dc.dec reg)) (o : DecOpts) (fuel idx : Nat) (reg : Registry) (out : DecOut α)
+    (o : DecOpts) (fuel idx : Nat) (reg : Registry) (out : DecOut α)
     (bits rest : Bits) (s0 : SectionLayout) (d : Nat)
+    (hdc : HasData (o.transform s0).params → ∀ reg, R.ErrLib (dc.dec reg))
     (hcfg : getCfg L idx reg.editionKey = .ok s0) (hpres : isPresent reg (o.transform s0) idx = .ok true)
     (hs : (o.transform s0).lenOK = true) (hd : readUInt 24 bits = .ok (d, rest))
     (hshort : d * 8 < fixedBits (o.transform s0).params) :
     ∃ e, decLoop L dc o (fuel + 1) idx reg out bits = .error e ∧ e.isLib = true := by
-  obtain ⟨e, he, hl⟩ := C12_short_section_length_refused dc hdc (o.transform s0) hs reg out.nbits bits rest d hd hshort
+  obtain ⟨e, he, hl⟩ := C12_short_section_length_refused dc (o.transform s0) hdc hs reg out.nbits bits rest d hd hshort
   exact ⟨e, C12_loop_propagates_section_error L dc o fuel idx reg out bits s0 e hcfg hpres he, hl⟩
+
+/-- **a damaged section length in an otherwise valid message, for ALL messages**: let a bit string decode (any
+    layouts, options, prefix-determined data coder; the coder has to raise library errors only where the damaged
+    section is the one that holds the template data), let `sec` be one of its sections
+    that carries a length, `n1` the sections before it.  Replace everything from the start of `sec` on by ANY bits
+    `tail` whose first 24 bits declare `d` octets, less than the fixed part of every layout of that section index:
+    the decoding fails, with a library error.  (The sections before `sec` are decoded exactly as before — the loop
+    arrives at `sec` in the same state — and there `C12_short_section_length_refused_in_loop` applies.) -/
+theorem C12_msg_short_section_length_refused {α : Type} (L : Layouts) (dc : DataCoder α)
+    (hloc : ∀ reg, Local (dc.dec reg)) (o : DecOpts)
+    (herr : ∀ idx ed s0, getCfg L idx ed = .ok s0 → HasData (o.transform s0).params → ∀ reg, R.ErrLib (dc.dec reg))
+    (hL : ∀ idx ed s0, getCfg L idx ed = .ok s0 → (o.transform s0).hasParam "section_length" = true →
+      (o.transform s0).lenOK = true)
+    (bits : Bits) (out : DecOut α) (r : Bits) (hok : decodeBits L dc o bits = .ok (out, r))
+    (n1 : List DecSection) (sec : DecSection) (n2 : List DecSection) (hsplit : out.sections = n1 ++ sec :: n2)
+    (hsl : "section_length" ∈ sec.params.map (·.1))
+    (tail rest : Bits) (d : Nat) (hd : readUInt 24 tail = .ok (d, rest))
+    (hshort : ∀ idx ed s0, getCfg L idx ed = .ok s0 → (o.transform s0).index = sec.index →
+      d * 8 < fixedBits (o.transform s0).params) :
+    ∃ e, decodeBits L dc o (bits.take ((n1.map (·.nbits)).sum) ++ tail) = .error e ∧ e.isLib = true := by
+  unfold decodeBits at hok ⊢
+  obtain ⟨news, hnews, hv⟩ := decLoop_visits L dc hloc o _ _ _ _ _ _ _ hok
+  simp only [List.nil_append] at hnews
+  obtain ⟨p, q, fuel', idx', reg', outk, s0, hx, hpl, hc, hp, hi, hn, heq⟩ := hv n1 sec n2 (by rw [← hnews]; exact hsplit)
+  have hp_take : bits.take ((n1.map (·.nbits)).sum) = p := by
+    rw [hx, ← hpl, List.take_left']
+    rfl
+  rw [hp_take, heq tail]
+  have hhas : (o.transform s0).hasParam "section_length" = true := by
+    rw [hn] at hsl
+    obtain ⟨q', hq', hqn⟩ := List.mem_map.mp hsl
+    simp only [SectionLayout.hasParam, List.any_eq_true, beq_iff_eq]
+    exact ⟨q', hq', hqn⟩
+  exact C12_short_section_length_refused_in_loop L dc o fuel' idx' reg' outk tail rest s0 d (herr _ _ _ hc) hc hp
+    (hL _ _ _ hc hhas) hd (hshort _ _ _ hc hi.symm)
+
+/-- a section that does not hold the template data (sections 1, 2, 3; section 4 under `info_only`): the two statements
+    hold for EVERY data coder — in particular for `Stream.tableCoder`, whatever its walk may raise -/
+theorem C12_short_section_length_refused_no_data {α : Type} (dc : DataCoder α) (s : SectionLayout)
+    (hnd : s.params.all (fun p => p.ty != .templateData) = true) (hs : s.lenOK = true) (reg : Registry) (start : Nat)
+    (bits rest : Bits) (d : Nat) (hd : readUInt 24 bits = .ok (d, rest)) (hshort : d * 8 < fixedBits s.params) :
+    (∃ e, decSection dc s reg start bits = .error e ∧ e.isLib = true) ∧ R.ErrLib (decSection dc s reg start) := by
+  have hno : HasData s.params → ∀ reg, R.ErrLib (dc.dec reg) := by
+    intro ⟨p, hp, ht⟩
+    have := List.all_eq_true.mp hnd p hp
+    simp [ht] at this
+  exact ⟨C12_short_section_length_refused dc s hno hs reg start bits rest d hd hshort,
+         C12_section_errors_are_library_errors dc s hno hs reg start⟩
+
+/-- bundled layouts: the template data sits in section 4 of a full decode only -/
+theorem C12_bundled_data_only_in_section4 :
+    Gen.layouts.all (fun e => [false, true].all fun io => [false, true].all fun ig =>
+      (e.index == 4 && !io) ||
+        (({ infoOnly := io, ignoreExpect := ig } : DecOpts).transform e.layout).params.all (fun p => p.ty != .templateData)) = true := by
+  decide
 
 /-- the bundled layouts: every section that carries a length meets `lenOK`, in all four decoding modes -/
 theorem C12_bundled_layouts_lenOK :
@@ -201,26 +162,29 @@ theorem C12_bundled_fixed_parts :
       [(1, 2, 18), (1, 3, 18), (1, 4, 22), (1, 0, 22), (2, 0, 4), (3, 0, 7), (4, 0, 4)] := by
   decide
 
-/-- the driver's raw data reader raises bit-read errors only -/
-theorem errLib_rawCoder (n : Nat) : ∀ reg, R.ErrLib ((rawCoder n).dec reg) := fun _ => errLib_readBits n
+/-- the bundled layouts meet the layout hypothesis of `C12_msg_short_section_length_refused`, in every decoding mode -/
+theorem C12_bundled_layouts_lenOK_of_cfg (o : DecOpts) (idx ed : Nat) (s0 : SectionLayout)
+    (hc : getCfg Gen.layouts idx ed = .ok s0) (hh : (o.transform s0).hasParam "section_length" = true) :
+    (o.transform s0).lenOK = true := by
+  obtain ⟨e, he, rfl, _⟩ := getCfg_mem hc
+  have hall : Gen.layouts.all (fun e => [false, true].all fun io => [false, true].all fun ig =>
+      !(({ infoOnly := io, ignoreExpect := ig } : DecOpts).transform e.layout).hasParam "section_length" ||
+        (({ infoOnly := io, ignoreExpect := ig } : DecOpts).transform e.layout).lenOK) = true := by decide
+  have h1 := List.all_eq_true.mp hall e he
+  obtain ⟨io, ig⟩ := o
+  cases io <;> cases ig <;> simp only [List.all_cons, List.all_nil, Bool.and_true, Bool.and_eq_true, Bool.or_eq_true,
+    Bool.not_eq_true'] at h1 <;> simp_all
 
-/-- a data coder built on `decodeData` raises library errors only as far as `decodeData` does (it does NOT in general:
-    finding F15 — a garbled template or garbled data make the walk raise `other`; which is why the two theorems above
-    carry the hypothesis) -/
-theorem errLib_tableCoder (T : Tables)
-    (h : ∀ tmpl c n bits e, decodeData tmpl c n bits = .error e → e.isLib = true)
-    (hb : ∀ ids e, build T ids = .error e → e.isLib = true)
-    (reg : Registry)
-    (hreg : ∃ ids comp n a b c d e f, reg.get? "unexpanded_descriptors" = some { val := .descs ids, nbits := a, pos := b } ∧
-      reg.get? "is_compressed" = some { val := .bool comp, nbits := c, pos := d } ∧
-      reg.get? "n_subsets" = some { val := .int n, nbits := e, pos := f }) :
-    R.ErrLib ((Stream.tableCoder T).dec reg) := by
-  obtain ⟨ids, comp, n, a, b, c, d, e, f, h1, h2, h3⟩ := hreg
-  intro x err hx
-  simp only [Stream.tableCoder, h1, h2, h3] at hx
-  cases hbt : build T ids with
-  | error e' => rw [hbt] at hx; cases hx; exact hb ids _ hbt
-  | ok tmpl => rw [hbt] at hx; exact h tmpl comp n.toNat x err hx
+/-- … and every bundled layout of section index 3 has a fixed part of 56 bits -/
+theorem C12_bundled_section3_fixed (idx ed : Nat) (s0 : SectionLayout) (hc : getCfg Gen.layouts idx ed = .ok s0)
+    (hi : s0.index = 3) : fixedBits s0.params = 56 := by
+  obtain ⟨e, he, rfl, _⟩ := getCfg_mem hc
+  have hall : Gen.layouts.all (fun e => e.layout.index != 3 || fixedBits e.layout.params == 56) = true := by decide
+  have h1 := List.all_eq_true.mp hall e he
+  simp only [Bool.or_eq_true, bne_iff_ne, ne_eq, beq_iff_eq] at h1
+  rcases h1 with h1 | h1
+  · exact absurd hi h1
+  · exact h1
 
 /-! ## non-vacuity -/
 
@@ -237,21 +201,28 @@ end C12Len
     declaring 5 octets, followed by the rest of the 56-octet example message -/
 example : ∃ e, decSection (rawCoder 5) (C12Len.sec 3) Registry.init 240 (bytesToBits [0, 0, 5] ++ C12Len.tail3) = .error e ∧
     e.isLib = true :=
-  C12_short_section_length_refused (rawCoder 5) (errLib_rawCoder 5) (C12Len.sec 3) (by decide) _ _ _ C12Len.tail3 5
+  C12_short_section_length_refused (rawCoder 5) (C12Len.sec 3) (fun _ => errLib_rawCoder 5) (by decide) _ _ _ C12Len.tail3 5
+    (by decide +kernel) (by decide)
+
+/-- … of `C12_short_section_length_refused_no_data`: the same section under the real data coder of ANY table group -/
+example (T : Tables) :
+    (∃ e, decSection (Stream.tableCoder T) (C12Len.sec 3) Registry.init 240 (bytesToBits [0, 0, 5] ++ C12Len.tail3) = .error e ∧
+      e.isLib = true) ∧ R.ErrLib (decSection (Stream.tableCoder T) (C12Len.sec 3) Registry.init 240) :=
+  C12_short_section_length_refused_no_data (Stream.tableCoder T) (C12Len.sec 3) (by decide) (by decide) _ _ _ C12Len.tail3 5
     (by decide +kernel) (by decide)
 
 /-- … and of `C12_section_errors_are_library_errors` (the same section, cut after 40 bits: a bit-read error) -/
 example : (decSection (rawCoder 5) (C12Len.sec 3) Registry.init 240 ((bytesToBits [0, 0, 17] ++ C12Len.tail3).take 40)).map
       (fun _ => ()) = .error .bitRead ∧
     R.ErrLib (decSection (rawCoder 5) (C12Len.sec 3) Registry.init 240) :=
-  ⟨by decide +kernel, C12_section_errors_are_library_errors _ (errLib_rawCoder 5) _ (by decide) _ _⟩
+  ⟨by decide +kernel, C12_section_errors_are_library_errors _ _ (fun _ => errLib_rawCoder 5) (by decide) _ _⟩
 
 /-- the hypotheses of `C12_short_section_length_refused_in_loop` are satisfiable: the loop about to decode section 3
     (edition 4 in the registry) of a message whose section 3 declares 5 octets -/
 example : ∃ e, decLoop Gen.layouts (rawCoder 5) {} 4 3 (("edition", { val := .int 4, nbits := 8, pos := 56 }) :: Registry.init)
       { sections := [], data := none, nbits := 240 } (bytesToBits [0, 0, 5] ++ C12Len.tail3) = .error e ∧ e.isLib = true :=
-  C12_short_section_length_refused_in_loop Gen.layouts (rawCoder 5) (errLib_rawCoder 5) {} 3 3 _ _ _ C12Len.tail3
-    (C12Len.sec 3) 5 (by decide +kernel) (by decide +kernel) (by decide) (by decide +kernel) (by decide)
+  C12_short_section_length_refused_in_loop Gen.layouts (rawCoder 5) {} 3 3 _ _ _ C12Len.tail3
+    (C12Len.sec 3) 5 (fun _ => errLib_rawCoder 5) (by decide +kernel) (by decide +kernel) (by decide) (by decide +kernel) (by decide)
 
 /-- at message level, by evaluation: the 56-octet edition-4 message of `Props/C12Msg.lean` (sections 1, 3, 4 at octets
     8, 30, 47 with 22, 17, 5 octets) with the declared length of section 1 set to EVERY value below 22, of section 3 to
@@ -265,5 +236,31 @@ example :
     ((List.range 4).all fun v => [false, true].all fun io =>
       decide ((decode Gen.layouts (rawCoder 5) { infoOnly := io } (C12Len.withByte C12Msg.msg 49 v)).map (·.nbits) = .error .lib)) := by
   decide +kernel
+
+/-- the hypotheses of `C12_msg_short_section_length_refused` are satisfiable: the 56-octet message decodes into five
+    sections; the third (index 3, 136 bits, after 64 + 176 = 240 bits) carries a length -/
+example :
+    (decodeBits Gen.layouts (rawCoder 5) {} (bytesToBits C12Msg.msg)).map (fun x =>
+        (x.1.sections.map (fun s => (s.index, s.nbits, (s.params.map (·.1)).contains "section_length")), x.2)) =
+      .ok ([(0, 64, false), (1, 176, true), (3, 136, true), (4, 40, true), (5, 32, false)], []) := by
+  decide +kernel
+
+/-- … and the theorem applied to it: whatever replaces the message from bit 240 on, if it starts with a section-3
+    length below 7 the (strict, full) decoding fails with a library error -/
+example (out : DecOut Bits) (r : Bits)
+    (hok : decodeBits Gen.layouts (rawCoder 5) {} (bytesToBits C12Msg.msg) = .ok (out, r))
+    (n1 : List DecSection) (sec : DecSection) (n2 : List DecSection) (hsplit : out.sections = n1 ++ sec :: n2)
+    (hidx : sec.index = 3) (hsl : "section_length" ∈ sec.params.map (·.1))
+    (tail rest : Bits) (d : Nat) (hd : readUInt 24 tail = .ok (d, rest)) (hlt : d < 7) :
+    ∃ e, decodeBits Gen.layouts (rawCoder 5) {} ((bytesToBits C12Msg.msg).take ((n1.map (·.nbits)).sum) ++ tail) = .error e ∧
+      e.isLib = true :=
+  C12_msg_short_section_length_refused Gen.layouts (rawCoder 5) (fun _ => local_readBits 5) {}
+    (fun _ _ _ _ _ => errLib_rawCoder 5) (C12_bundled_layouts_lenOK_of_cfg {}) _ out r hok n1 sec n2 hsplit hsl tail rest d hd
+    (fun idx ed s0 hc hi => by
+      have h56 : fixedBits s0.params = 56 := C12_bundled_section3_fixed idx ed s0 hc (by
+        rw [transform_index] at hi; rw [hi, hidx])
+      show d * 8 < fixedBits (({} : DecOpts).transform s0).params
+      have : (({} : DecOpts).transform s0) = s0 := rfl
+      rw [this, h56]; omega)
 
 end Bufr
